@@ -16,6 +16,7 @@ POLY = "geo_types::geometry::polygon::Polygon"
 RECT = "geo_types::geometry::rect::Rect"
 LS = "geo_types::geometry::line_string::LineString"
 CLOSE_RE = r"geo_types::geometry::line_string::LineString::<T>::close$"
+FACTS = [None]       # the fact base the path views belong to (set per configuration)
 CTL = "geo_verif_roots::controls::"
 
 
@@ -31,6 +32,7 @@ def run(rep, tier):
     configs = ["default"] + (["allfeat"] if tier == "thorough" else [])
     for cfg in configs:
         F = Facts(cfg)
+        FACTS[0] = F
         tag = "" if cfg == "default" else "[%s]" % cfg
         polygon_rules(rep, F, POLY, "geo_types::geometry::polygon", tag, floor_writers=6)
         rect_rules(rep, F, tag)
@@ -163,6 +165,34 @@ def closed_elem_of_existing(v):
     return v[0] == "field" and v[2] in ("interiors", "exterior") and pure_existing(v[1])
 
 
+def closure_closes(pv, cl, close_re):
+    """the closure's body (every returning path) passes its own parameter, the `&mut` element, to the closing function"""
+    while cl[0] in ("&", "ref") and cl[0] == "&":
+        cl = cl[1]
+    if cl[0] != "closure":
+        return False
+    F = FACTS[0]
+    g = F.by_key.get(cl[1])
+    if g is None:
+        return False
+    try:
+        ps = [p for p in Symex(F, no_inline=[CLOSE_RE], loop_bound=1).run(g) if p.kind != "cut"]
+    except Unanalysable:
+        return False
+    if not ps:
+        return False
+    for p in ps:
+        if p.kind != "ret":
+            return False
+        hit = False
+        for e in p.trace:
+            if e[0] == "call" and re.search(close_re, e[1]) and e[2] and show(e[2][0]).replace("&", "").replace("*", "") in ("a2", "mut a2"):
+                hit = True
+        if not hit:
+            return False
+    return True
+
+
 def closed_vec(pv, v, close_re, depth=0):
     if v[0] == "&":
         v = v[1]
@@ -175,7 +205,7 @@ def closed_vec(pv, v, close_re, depth=0):
         if ev is None:
             return False, "unknown effect"
         if idioms.is_mut_iter_creation(ev):
-            ok, why = idioms.complete_apply_all(pv.path, v[1], close_re)
+            ok, why = idioms.complete_apply_all(pv.path, v[1], close_re, closure_applies=lambda cl: closure_closes(pv, cl, close_re))
             if ok:
                 return True, "close-all loop over the vector (%s)" % why
             return False, "iteration over the rings does not close every ring: %s" % why
